@@ -444,6 +444,20 @@ def gen_pgn(ctx, fens, ntrees, nmut):
     return items, bad
 
 
+def probe_deep_nesting(ctx):
+    """beyond the 4 KB bound of the property: variation nesting deep enough to exhaust the stack (recorded finding)"""
+    bdir = vlib.cxx_build("plain", ("vharness",))
+    for n in (1365, 8000):
+        rc, out, err = vlib.run_lines(os.path.join(bdir, "vharness"), ["text pgnx " + (b"a3(" * n).hex()])
+        ctx.count()
+        if rc != 0 or len(out) != 1:
+            if n * 3 <= 4096:
+                ctx.violation(f"PGN reader dies on {n} nested variations ({n * 3} bytes)", {"kind": "impl-crash", "input": ["text pgnx " + (b"a3(" * n).hex()], "rc": rc, "variant": "plain"})
+            else:
+                ctx.violation(f"PGN reader dies on {n} nested variations ({n * 3} bytes, rc={rc})", {"finding_id": "C17-pgn-nesting-stack", "kind": "impl-crash", "rc": rc})
+    ctx.tie("pgn-deep-nesting", kind="implementation only: `a3(` repeated 1365 times (the deepest nesting 4 KB allow) must be read; 8000 times is the recorded finding", runs=2)
+
+
 def block_malformed(ctx, fens, san_by_fen, quick, nproc):
     rng = ctx.rng
     nf, ns, nu, ntree, npg = (22000, 12000, 6000, 1000, 8000) if quick else (2000000, 1200000, 500000, 40000, 1200000)
@@ -616,6 +630,7 @@ def run(ctx):
     accepted = [f for f in san_by_fen]
     block_malformed(ctx, accepted or [chessgen.START], san_by_fen, quick, nproc)
     block_uci(ctx, accepted or [chessgen.START], quick)
+    probe_deep_nesting(ctx)
     ctx.cov["rule"] = ("positions = all positions of random legal games + chessgen's synthetic motifs + placements with 2..8 like pieces attacking one square (shared files/ranks forced) "
                        "+ seventh-rank pawns with capturable pieces and the enemy king on the eighth; every legal move: short, long, UCI text vs model and parsed back by the real parsers, short forms pairwise distinct; "
                        "malformed stream: valid FEN / move text / UCI move / decorated PGN mutated by byte flips, insertions, deletions, duplications, truncations, long runs (to 4 KB), boundary counters, plus random bytes; "
